@@ -11,7 +11,7 @@ git -C $REPO status --short | grep -q . && { echo "repository not clean"; exit 2
 miss=0
 for s in $ids; do
   prop=${s%%-*}
-  git -C $REPO apply seeded/$s/patch.diff || { echo "$s APPLY-FAILED"; continue; }
+  git -C $REPO apply "$PWD/seeded/$s/patch.diff" || { echo "$s APPLY-FAILED"; continue; }
   t0=$(date +%s)
   ./check $prop --tier quick > work-seed-$s.log 2>&1
   rc=$?
